@@ -191,6 +191,19 @@ struct Model {
 thread_local! {
     static MODEL: RefCell<Model> = RefCell::new(Model::default());
 }
+/// the rank sequences of the killer batches computed since this was last cleared (the stub-fidelity
+/// differential turns them into explicit batches for the native half, which has no adversary)
+pub static LAST_KILLERS: std::sync::Mutex<Vec<Vec<u32>>> = std::sync::Mutex::new(Vec::new());
+pub fn killer_texts(ranks: &[u32], cols: usize) -> Vec<Vec<String>> {
+    ranks
+        .iter()
+        .map(|r| {
+            let mut t = vec![String::new(); cols];
+            t[0] = format!("a{}", "x".repeat(*r as usize));
+            t
+        })
+        .collect()
+}
 fn model<R>(f: impl FnOnce(&mut Model) -> R) -> R {
     MODEL.with(|m| f(&mut m.borrow_mut()))
 }
@@ -1069,14 +1082,8 @@ fn writer_main(w: usize, inj: Injector<Payload>, s: u32, ops: Vec<WOp>, gates: V
                             let _q = sim::quiet();
                             crate::world_sort::killer_ranks(*n as usize, *seed)
                         };
-                        big = ranks
-                            .iter()
-                            .map(|r| {
-                                let mut t = vec![String::new(); cols];
-                                t[0] = format!("a{}", "x".repeat(*r as usize));
-                                t
-                            })
-                            .collect::<Vec<_>>();
+                        big = killer_texts(&ranks, cols);
+                        LAST_KILLERS.lock().unwrap().push(ranks.clone());
                         let hs = sim::with(|s| s.probes.get("sort.heapsort").copied().unwrap_or(0));
                         model(|m| m.killer_baseline = Some(hs));
                         sim::probe("writer.extend_killer");
